@@ -156,6 +156,18 @@ def run_block(block, knobs, faults=(), drive='mono', text=None):
                 solver.MaxTime = int(knobs['maxtime_attr'])
             solver.AddFunction('chaos', chaos)
             solver.AddFunction('tick', tick)
+            if knobs.get('prelude') is not None:
+                # the solver has a history: another block was parsed and solved on it before
+                rec['phase'] = 'prelude'
+                try:
+                    solver.ParseString(render(knobs['prelude']))
+                    solver.SolveEquation()
+                    rec['prelude_outcome'] = 'ok'
+                except Exception as ex:   # noqa
+                    rec['prelude_outcome'] = type(ex).__name__
+                rec['prelude_series'] = snapshot(solver.TimeSeries)
+                chaos.calls = 0
+                tick.per_period = {}
             rec['phase'] = 'parse'
             solver.ParseString(text)
             if knobs.get('cap') is not None:
@@ -398,6 +410,10 @@ def check_c10(block, knobs, rec, drive, prop='C10', misuse=None):
                                       misuse=misuse))
             return out
         nonempty = [k for k, v in rec['series'].items() if len(v) > 0]
+        if rec.get('prelude_series') is not None:
+            # a reused solver may still hold the previous block's results, untouched; nothing of the rejected block
+            if core.canon_json(rec['series']) == core.canon_json(rec['prelude_series']):
+                nonempty = []
         if nonempty:
             out.append(core.violation(prop, 'misuse-left-numbers', 'misuse-left-numbers:' + misuse,
                                       misuse=misuse, series=sorted(nonempty)[0:5]))
